@@ -200,6 +200,8 @@ struct C17 : public Driver {
             else if (g.chance(1, 10)) { s["varcount"] = true; s["count"] = "*[@k]"; s["token"] = "1"; }      // count pattern with a variable reference; the oracle knows its two values
             else if (g.chance(1, 8)) { static const std::vector<std::string> big = { "count(preceding::*) * 2 + 4503599627370497", "(count(preceding::*) + 1) * 98765432101", "count(preceding::*) * 1234567 + 123456789012", "(count(preceding::*) + 1) * 987654321" }; static const std::vector<std::string> seps = { ",", ".", "'", " " };
                 s["value"] = g.pick(big); s["from"] = ""; s["count"] = ""; s["token"] = "1"; s["gsep"] = g.pick(seps); s["gsize"] = (long long)g.range(1, 5); }      // nine to fourteen digits, grouped
+            // position() as the value right after an instruction whose count pattern evaluates position() in a context list of its own
+            if (s.str("value") == "position()") { Json h = Json::object(); h["level"] = g.chance(1, 2) ? "single" : "multiple"; h["count"] = std::string(g.chance(1, 2) ? "*" : name().c_str()) + "[position() &gt; 0]"; h["from"] = ""; h["token"] = "1"; sets.push(h); }
             sets.push(s);
         }
         p["sets"] = sets; p["ns_mode"] = nsMode; p["xerces_src"] = run % 4 == 1;
